@@ -248,25 +248,25 @@ def parts(tier):
                 CH("many_strings_at_the_literal_limit", "vflib.props.c07:scen_many_strings", {}, shards=15, timeout=170, path_timeout=60, mode="CH-E"),
                 CH("order_objects", "vflib.props.c07:scen_order", {"kinds": "KINDS_ORDER2", "samples": 3, "dkr": [None, "^\\d+$"], "symbolic_leaves": False},
                    shards=16, timeout=170, path_timeout=60, mode="CH-E")]
-    return [CH("merge_order", "vflib.props.c07:scen_merge_order", {"models": 5}, shards=16, timeout=250, path_timeout=30),
+    return [CH("merge_order", "vflib.props.c07:scen_merge_order", {"models": 5}, shards=16, timeout=150, path_timeout=30),
             CH("merge_order_real_comparators_with_children", "vflib.props.c07:scen_merge_order_real", {"keys": 4, "children": True, "policies": ["n2", "p70_n2", "exact_n2", "p50_n3"]},
-               shards=16, timeout=250, path_timeout=30),
+               shards=16, timeout=150, path_timeout=30),
             CH("order_datetime_strings", "vflib.props.c07:scen_order", {"kinds": "KINDS_DATEORDER", "samples": 3, "symbolic_leaves": False, "registry": "datetime"},
-               shards=16, timeout=250, path_timeout=60, mode="CH-E"),
+               shards=16, timeout=150, path_timeout=60, mode="CH-E"),
             CH("order_literal_limits", "vflib.props.c07:scen_order", {"kinds": "KINDS_LITORDER", "samples": 3, "symbolic_leaves": False, "merge": ["default", "p50n2"]},
-               shards=16, timeout=250, path_timeout=60, mode="CH-E"),
-            CH("many_strings_at_the_literal_limit", "vflib.props.c07:scen_many_strings", {"counts": [1, 2, 3, 8, 13, 14, 15, 16, 17, 30]}, shards=16, timeout=250, path_timeout=60,
+               shards=16, timeout=150, path_timeout=60, mode="CH-E"),
+            CH("many_strings_at_the_literal_limit", "vflib.props.c07:scen_many_strings", {"counts": [1, 2, 3, 8, 13, 14, 15, 16, 17, 30]}, shards=16, timeout=150, path_timeout=60,
                mode="CH-E"),
             CH("merge_order_real_comparators", "vflib.props.c07:scen_merge_order_real", {"keys": 5, "policies": ["p70_n2", "p50_n3", "exact_n2", "default"],
                                                                                           "orders": [(2, 1, 0), (1, 2, 0), (1, 0, 2), (0, 2, 1), (2, 0, 1)]},
-               shards=16, timeout=250, path_timeout=30),
+               shards=16, timeout=150, path_timeout=30),
             CH("order", "vflib.props.c07:scen_order", {"kinds": "KINDS_SMALL", "samples": 3, "merge": ["default", "p50n2"], "all_traced": True},
-               shards=16, timeout=250, path_timeout=90, mode="CH-P+CH-E"),
+               shards=16, timeout=150, path_timeout=90, mode="CH-P+CH-E"),
             CH("order_nested", "vflib.props.c07:scen_order", {"kinds": "KINDS_NEST", "samples": 3, "merge": ["default", "p50n2"],
                                                               "symbolic_leaves": False},
-               shards=16, timeout=250, path_timeout=60, mode="CH-E"),
+               shards=16, timeout=150, path_timeout=60, mode="CH-E"),
             CH("order_two_keys", "vflib.props.c07:scen_order", {"kinds": "KINDS_ORDER", "samples": 2, "keys": ["a", "b"], "merge": ["default", "p50n2"]},
-               shards=16, timeout=250, path_timeout=60, mode="CH-P+CH-E")]
+               shards=16, timeout=150, path_timeout=60, mode="CH-P+CH-E")]
 
 
 META = {
